@@ -23,7 +23,13 @@ def run_mutant(pid, m):
 	try:
 		repo = os.path.join(tmp, 'repo')
 		subprocess.run(['rsync', '-a', '--exclude', '.git', '--exclude', 'target', '--exclude', 'fuzz', REPO + '/', repo + '/'], check=True)
-		edits = m.get('edits') or [{'file': m['file'], 'find': m['find'], 'replace': m['replace']}]
+		if m.get('patch'):
+			pf = m['patch'] if os.path.isabs(m['patch']) else os.path.join(HERE, m['patch'])
+			r = subprocess.run(['git', 'apply', '--whitespace=nowarn', pf], cwd=repo, stdout=subprocess.PIPE, stderr=subprocess.STDOUT, text=True)
+			if r.returncode != 0:
+				res['outcome'] = 'stale'; res['note'] = 'patch does not apply: ' + r.stdout[-300:]
+				return res
+		edits = m.get('edits') or ([{'file': m['file'], 'find': m['find'], 'replace': m['replace']}] if m.get('file') else [])
 		for e in edits:
 			p = os.path.join(repo, e['file'])
 			if not os.path.exists(p):
@@ -66,10 +72,20 @@ def run_mutant(pid, m):
 		shutil.rmtree(tmp, ignore_errors=True)
 
 def load(pid):
+	out = []
 	p = os.path.join(HERE, 'selftest', pid + '.json')
-	if not os.path.exists(p):
-		return []
-	return json.load(open(p))
+	if os.path.exists(p):
+		out += json.load(open(p))
+	# independently seeded defects (written by sub-agents that never saw /verif): seeded/<id>/{patch.diff,meta.json}
+	sd = os.path.join(HERE, 'seeded')
+	if os.path.isdir(sd):
+		for d in sorted(os.listdir(sd)):
+			mp = os.path.join(sd, d, 'meta.json')
+			if os.path.exists(mp):
+				meta = json.load(open(mp))
+				if meta.get('property') == pid and meta.get('detected_by'):
+					out.append({'id': 'seeded:' + d, 'patch': os.path.join('seeded', d, 'patch.diff'), 'expect': meta['detected_by'], 'why': meta.get('summary', '')[:200]})
+	return out
 
 def run(pids, jobs=4, only=None):
 	work = []
